@@ -94,7 +94,8 @@ class Session:
         self.required_names = []
         self.known = [k for k in load_known_findings() if k.get("property") == pid]
         import shutil
-        shutil.rmtree(os.path.join(HERE, "replays", pid), ignore_errors=True)   # replay files belong to one run
+        if "--replay" not in sys.argv:
+            shutil.rmtree(os.path.join(HERE, "replays", pid), ignore_errors=True)   # replay files belong to one run
 
     # ------------------------------------------------------------------ registration helpers
     def under_contract(self, *names):
